@@ -1,6 +1,8 @@
 package vc
 
 import (
+	"os"
+	"sort"
 	"fmt"
 	"go/token"
 	"go/types"
@@ -24,10 +26,45 @@ func loopsOf(fn *ssa.Function) map[*ssa.BasicBlock]*loopInfo {
 }
 
 func (ex *Exec) loopSpecFor(st *State, fr *Frame, li *loopInfo) *LoopSpec {
-	if len(st.frames) != 1 || ex.cur.contract == nil {
+	if len(st.frames) != 1 {
+		// a callee executed in place: its loops are specified by its own contract when that carries
+		// the attribute `inline` (body used at call sites, loop invariants from the contract)
+		if ct, ok := ex.Contracts[ex.FuncKey(fr.fn)]; ok && ct.hasAttr("inline") {
+			return ct.Loops[li.ordinal]
+		}
+		return nil
+	}
+	if ex.cur.contract == nil {
 		return nil
 	}
 	return ex.cur.contract.Loops[li.ordinal]
+}
+
+// loopEnv: the environment in which the loop invariants of frame fr are evaluated.
+func (ex *Exec) loopEnv(st *State, fr *Frame, lc *loopCtx) *Env {
+	if len(st.frames) == 1 || fr == st.frames[0] {
+		return ex.contractEnv(st, lc)
+	}
+	env := &Env{vars: map[string]Value{}, lc: lc, old: st.entry, fr: fr}
+	if ct, ok := ex.Contracts[ex.FuncKey(fr.fn)]; ok {
+		env.defs = ct.Defines
+		env.pkg = ct.Pkg
+		names := ex.paramNames(fr.fn, ct)
+		for i, p := range fr.fn.Params {
+			if v, ok := fr.regs[p]; ok && i < len(names) {
+				env.vars[names[i]] = v
+			}
+		}
+	}
+	return env
+}
+
+// loopLabel: obligation label of a loop (prefixed with the callee's name for loops of inlined callees).
+func (ex *Exec) loopLabel(st *State, fr *Frame, ordinal int) string {
+	if len(st.frames) == 1 || fr == st.frames[0] {
+		return fmt.Sprintf("loop%d", ordinal)
+	}
+	return fmt.Sprintf("%s.loop%d", shortName(ex.FuncKey(fr.fn)), ordinal)
 }
 
 // enterBlock is called after a jump; returns false if the path ends here.
@@ -57,27 +94,27 @@ func (ex *Exec) enterBlock(st *State) bool {
 		// back edge: preservation
 		lc := fr.loops[len(fr.loops)-1]
 		for _, inv := range spec.Invariants {
-			g := ex.evalBool(st, inv.E, ex.contractEnv(st, lc), inv)
-			ex.oblige(st, "loop.preserve", fmt.Sprintf("loop%d.preserve:%s", li.ordinal, inv.Label), g, fr.block.Instrs[0].Pos(), inv.Src)
+			g := ex.evalBool(st, inv.E, ex.loopEnv(st, fr, lc), inv)
+			ex.oblige(st, "loop.preserve", fmt.Sprintf("%s.preserve:%s", ex.loopLabel(st, fr, li.ordinal), inv.Label), g, fr.block.Instrs[0].Pos(), inv.Src)
 		}
 		if spec.Decreases != nil {
-			m1 := ex.evalTerm(st, spec.Decreases.E, ex.contractEnv(st, lc), spec.Decreases)
-			ex.oblige(st, "decreases", fmt.Sprintf("loop%d.decreases", li.ordinal), And(Le(IntLit(0), lc.measure0), Lt(m1, lc.measure0)), fr.block.Instrs[0].Pos(), spec.Decreases.Src)
+			m1 := ex.evalTerm(st, spec.Decreases.E, ex.loopEnv(st, fr, lc), spec.Decreases)
+			ex.oblige(st, "decreases", fmt.Sprintf("%s.decreases", ex.loopLabel(st, fr, li.ordinal)), And(Le(IntLit(0), lc.measure0), Lt(m1, lc.measure0)), fr.block.Instrs[0].Pos(), spec.Decreases.Src)
 		}
 		return false
 	}
 	// entry
 	lc := &loopCtx{head: fr.block, info: li, spec: spec, ordinal: li.ordinal}
 	for _, inv := range spec.Invariants {
-		g := ex.evalBool(st, inv.E, ex.contractEnv(st, lc), inv)
-		ex.oblige(st, "loop.entry", fmt.Sprintf("loop%d.entry:%s", li.ordinal, inv.Label), g, fr.block.Instrs[0].Pos(), inv.Src)
+		g := ex.evalBool(st, inv.E, ex.loopEnv(st, fr, lc), inv)
+		ex.oblige(st, "loop.entry", fmt.Sprintf("%s.entry:%s", ex.loopLabel(st, fr, li.ordinal), inv.Label), g, fr.block.Instrs[0].Pos(), inv.Src)
 	}
 	ex.havocLoop(st, fr, li)
 	for _, inv := range spec.Invariants {
-		st.assume(ex.evalBool(st, inv.E, ex.contractEnv(st, lc), inv))
+		st.assume(ex.evalBool(st, inv.E, ex.loopEnv(st, fr, lc), inv))
 	}
 	if spec.Decreases != nil {
-		lc.measure0 = ex.evalTerm(st, spec.Decreases.E, ex.contractEnv(st, lc), spec.Decreases)
+		lc.measure0 = ex.evalTerm(st, spec.Decreases.E, ex.loopEnv(st, fr, lc), spec.Decreases)
 	}
 	fr.loops = append(fr.loops, lc)
 	fr.prev = nil // head phis keep their havocked values
@@ -198,6 +235,24 @@ func (ex *Exec) havocLoop(st *State, fr *Frame, li *loopInfo) {
 			}
 		}
 	}
+	// ghost state: a call in the body may change any ghost variable (through the callee's contract);
+	// what is known about them at the loop head must come from the invariants
+	modGhost := map[string]bool{}
+	for b := range li.body {
+		for _, in := range b.Instrs {
+			if ci, ok := in.(ssa.CallInstruction); ok {
+				ex.ghostsOfCall(ci.Common(), modGhost, map[*ssa.Function]bool{})
+			}
+		}
+	}
+	for _, n := range ex.Spec.GhostOrder {
+		if !modGhost[n] && !modGhost["*"] {
+			continue
+		}
+		if g, ok := st.ghost[n].(*Term); ok {
+			st.ghost[n] = ex.fresh(n, g.Sort)
+		}
+	}
 	// local cells
 	for a := range modAllocs {
 		if li.body[a.Block()] {
@@ -257,6 +312,67 @@ func (ex *Exec) havocLoop(st *State, fr *Frame, li *loopInfo) {
 		na := ex.fresh("alloc", SInt)
 		st.assume(Le(st.alloc, na))
 		st.alloc = na
+	}
+}
+
+// ghostsOfCall collects the ghost variables a call may modify: the `modifies` clauses of the callee's
+// contract (static callee or interface method), transitively through callees that are executed in place.
+// "*" = unknown (every ghost variable).
+func (ex *Exec) ghostsOfCall(c *ssa.CallCommon, out map[string]bool, seen map[*ssa.Function]bool) {
+	addContract := func(ct *Contract) {
+		for _, m := range ct.Modifies {
+			if qn, ok := QualifiedName(m.E); ok {
+				if _, isGhost := ex.Spec.Ghosts[qn]; isGhost {
+					out[qn] = true
+				}
+			}
+		}
+	}
+	if c.IsInvoke() {
+		if n, ok := c.Value.Type().(*types.Named); ok && n.Obj().Pkg() != nil {
+			if ct, ok := ex.Contracts[n.Obj().Pkg().Path()+"."+n.Obj().Name()+"."+c.Method.Name()]; ok {
+				addContract(ct)
+			}
+		}
+		return // an interface method without a contract is havocked on its arguments only
+	}
+	var callee *ssa.Function
+	switch v := c.Value.(type) {
+	case *ssa.Function:
+		callee = v
+	case *ssa.MakeClosure:
+		callee, _ = v.Fn.(*ssa.Function)
+	}
+	if callee == nil {
+		return // function values: symbolic callbacks are pure predicates; others are resolved when called
+	}
+	if seen[callee] {
+		return
+	}
+	seen[callee] = true
+	key := ex.FuncKey(callee)
+	if ct, ok := ex.Contracts[key]; ok && !ct.hasAttr("inline") {
+		addContract(ct)
+		return
+	}
+	if !strings.HasPrefix(key, ex.ModulePath) || callee.Blocks == nil {
+		return // library models do not touch the specification's ghost variables
+	}
+	for _, b := range callee.Blocks {
+		for _, in := range b.Instrs {
+			if ci, ok := in.(ssa.CallInstruction); ok {
+				ex.ghostsOfCall(ci.Common(), out, seen)
+			}
+		}
+	}
+	for _, a := range callee.AnonFuncs {
+		for _, b := range a.Blocks {
+			for _, in := range b.Instrs {
+				if ci, ok := in.(ssa.CallInstruction); ok {
+					ex.ghostsOfCall(ci.Common(), out, seen)
+				}
+			}
+		}
 	}
 }
 
@@ -555,6 +671,38 @@ func (ex *Exec) mapGet(st *State, hs *State, m *VMap, k *Term) Value {
 	return ex.unflatten(st, m.T.Elem(), vals, &pos)
 }
 
+// literalMapKeys: the keys of a map whose presence row is a chain of stores with literal keys over the
+// empty map (a table built by a composite literal); ok=false otherwise.
+func (ex *Exec) literalMapKeys(st *State, m *VMap) ([]int64, bool) {
+	pk, _ := mapHeapKeys(m.T)
+	row := Select(st.heap(pk, SHBool), m.Ref)
+	if os.Getenv("GOVC_DEBUGMAP") != "" {
+		rs := row.String()
+		if len(rs) > 300 {
+			rs = rs[:300]
+		}
+		fmt.Fprintf(os.Stderr, "literalMapKeys ref=%s row=%s\n", m.Ref, rs)
+	}
+	var keys []int64
+	seen := map[int64]bool{}
+	for row.Op == "store" {
+		lit, ok := row.Args[1].Int64()
+		if !ok || !row.Args[2].IsBoolLit() {
+			return nil, false
+		}
+		if !seen[lit] && row.Args[2].IsTrue() {
+			keys = append(keys, lit)
+		}
+		seen[lit] = true
+		row = row.Args[0]
+	}
+	if row.Op != "constarr" || !row.Args[0].IsFalse() {
+		return nil, false
+	}
+	sort.Slice(keys, func(i, j int) bool { return keys[i] < keys[j] })
+	return keys, true
+}
+
 func (ex *Exec) doLookup(st *State, fr *Frame, in *ssa.Lookup) Value {
 	x := ex.val(st, fr, in.X)
 	switch m := x.(type) {
@@ -564,6 +712,27 @@ func (ex *Exec) doLookup(st *State, fr *Frame, in *ssa.Lookup) Value {
 		return App("sat", SInt, m, idx)
 	case *VMap:
 		k := ex.mapKeyTerm(st, m.T, ex.val(st, fr, in.Index))
+		// a table of functions (e.g. the function-code dispatch tables) indexed by a symbolic key: one case
+		// per literal key stored in the table, so that the function called afterwards is statically known
+		if _, isFunc := m.T.Elem().Underlying().(*types.Signature); isFunc && !k.IsIntLit() {
+			if keys, ok := ex.literalMapKeys(st, m); ok && len(keys) <= 64 {
+				matched := false
+				for _, lit := range keys {
+					if ex.decide(st, Eq(k, IntLit(lit))) {
+						k = IntLit(lit)
+						matched = true
+						break
+					}
+				}
+				if !matched {
+					// the key is none of the table's keys on this path: the zero value (a nil function)
+					if in.CommaOk {
+						return &VTuple{Vals: []Value{ex.zeroValue(m.T.Elem()), False}}
+					}
+					return ex.zeroValue(m.T.Elem())
+				}
+			}
+		}
 		v := ex.mapGet(st, st, m, k)
 		if in.CommaOk {
 			return &VTuple{Vals: []Value{v, ex.mapPresent(st, st, m, k)}}
